@@ -250,6 +250,10 @@ type CmpOpts struct {
 	Comments  bool // compare *ast.CommentGroup fields (Doc, Comment)
 	ModParens bool // strip *ast.ParenExpr on both sides before comparing expressions
 	NoPos     bool // ignore token.Pos values entirely (not even valid/invalid): trees built without positions
+	// ModEmpty: compare statement lists after removing every *ast.EmptyStmt element, and treat any two EmptyStmt (the
+	// statement of `L: ;` vs `L: }`) as equal: the printer never writes an empty statement of a list and writes the one
+	// after a label only where the grammar needs it (class C25-3).  Everything else is still compared exactly.
+	ModEmpty bool
 	// FuncPosLoose: go/parser (>= go1.18?) leaves FuncType.Func = NoPos for interface methods exactly as the fork does;
 	// nothing is loosened at present.
 }
@@ -260,7 +264,20 @@ var (
 	objType   = reflect.TypeOf((*ast.Object)(nil))
 	scopeType = reflect.TypeOf((*ast.Scope)(nil))
 	exprType  = reflect.TypeOf((*ast.Expr)(nil)).Elem()
+	stmtType  = reflect.TypeOf((*ast.Stmt)(nil)).Elem()
+	emptyType = reflect.TypeOf(ast.EmptyStmt{})
 )
+
+// dropEmpty: the indexes of l (a []ast.Stmt) that do not hold an *ast.EmptyStmt
+func dropEmpty(l reflect.Value) []int {
+	var keep []int
+	for i := 0; i < l.Len(); i++ {
+		if _, ok := l.Index(i).Interface().(*ast.EmptyStmt); !ok {
+			keep = append(keep, i)
+		}
+	}
+	return keep
+}
 
 // Diff returns "" when a and b are structurally identical, else a description of the first difference.
 // Ignored: ast.Object / ast.Scope links (Obj, Scope, Unresolved), comment groups unless o.Comments,
@@ -327,6 +344,9 @@ func diff(a, b reflect.Value, path string, o CmpOpts) string {
 		return diff(a.Elem(), b.Elem(), path, o)
 	case reflect.Struct:
 		t := a.Type()
+		if o.ModEmpty && t == emptyType {
+			return ""
+		}
 		for i := 0; i < t.NumField(); i++ {
 			name := t.Field(i).Name
 			if name == "Obj" || name == "Scope" || name == "Unresolved" {
@@ -338,6 +358,18 @@ func diff(a, b reflect.Value, path string, o CmpOpts) string {
 		}
 		return ""
 	case reflect.Slice:
+		if o.ModEmpty && a.Type().Elem() == stmtType {
+			ka, kb := dropEmpty(a), dropEmpty(b)
+			if len(ka) != len(kb) {
+				return fmt.Sprintf("%s: %d vs %d non-empty statements", path, len(ka), len(kb))
+			}
+			for i := range ka {
+				if d := diff(a.Index(ka[i]), b.Index(kb[i]), fmt.Sprintf("%s[%d]", path, ka[i]), o); d != "" {
+					return d
+				}
+			}
+			return ""
+		}
 		if a.Len() != b.Len() {
 			return fmt.Sprintf("%s: len %d vs %d", path, a.Len(), b.Len())
 		}
